@@ -24,20 +24,16 @@ ObsNext ==
         /\ st' = [n \in Node |-> InitNode(n)] /\ net' = {} /\ clock' = 0
         /\ ledger' = [n \in Node |-> <<>>] /\ mid' = [n \in Node |-> FALSE]
         /\ panic' = FALSE /\ hist' = <<>>
-        /\ freshN' = 0 /\ freshAt' = -1 /\ topHb' = 0 /\ arrivals' = 0
+        /\ freshN' = 0 /\ freshAt' = -1 /\ topHb' = 0 /\ arrivals' = 0 /\ ftimes' = <<>> /\ deadEval' = -1
      ELSE
         /\ hist' = <<l, e>>
         /\ clock' = e.clock
         /\ st' = IF "post" \in DOMAIN e THEN [st EXCEPT ![e.n] = FromPost(st[e.n], e, e.n)] ELSE st
         /\ UNCHANGED <<net, ledger, mid>>
         /\ panic' = (panic \/ "panic" \in DOMAIN e)
-        /\ IF e.a = "Inject"
-           THEN LET h == e.msg.digest[X].hb IN
-                /\ freshN' = IF h > topHb THEN freshN + 1 ELSE freshN
-                /\ freshAt' = IF h > topHb THEN clock ELSE freshAt
-                /\ topHb' = IF h > topHb THEN h ELSE topHb
-                /\ arrivals' = arrivals + 1
-           ELSE UNCHANGED <<freshN, freshAt, topHb, arrivals>>
+        /\ IF e.a = "Inject" THEN GhostArrive(e.msg.digest[X].hb, clock)
+           ELSE IF e.a = "Liveness" THEN GhostEval(clock)
+           ELSE GhostSame
 
 ObsSpec == ObsInit /\ [][ObsNext]_ovars
 ObsView == <<dvars, l>>
